@@ -272,6 +272,43 @@ def entry_case(kw, res: Result = None):
         if bad:
             raise Violation("entry/" + kw["entry"] + "/effect-" + "+".join(sorted(bad)),
                             f"{kw}: the manager registered the client differently from what was asked (expected, got): {bad}", trace)
+        if kw.get("reconnect") and cm is None:
+            # the same Client object connects again (connect() disconnects first): a dynamic id must be
+            # requested afresh, the flags of the second call apply
+            flags2 = kw["reconnect"]
+            mon.take()
+            mon.rxbuf.clear()
+            n_before = len(sim.net.pairs)
+            SOCK.label = "cl-entry2"
+            client.connect("127.0.0.1:7111", logger_status=flags2[0], daemon_status=flags2[1], allow_multiple=flags2[2])
+            cs.pump()
+            if sim.dead:
+                raise Violation("manager-died", sim.dead.splitlines()[-1], trace)
+            csock2 = sim.net.pairs[-1][0]
+            mon.rxbuf += mon.take()
+            infos = [P.parse_client_info(f.payload) for f in P.parse_stream(mon.rxbuf, kw["timecode"]) if f.msg_type == P.MT_CLIENT_INFO]
+            mine = [i for i in infos if i["port"] == csock2.addr[1]]
+            if not mine:
+                raise Violation("entry/reconnect-no-client-info", f"{kw}: no CLIENT_INFO after the second connect()", trace)
+            last = mine[-1]
+            bad = {}
+            if kw["module_id"] and last["mod_id"] != kw["module_id"]:
+                bad["mod_id"] = (kw["module_id"], last["mod_id"])
+            if not kw["module_id"] and not (100 <= last["mod_id"] < 200):
+                bad["mod_id"] = ("100..199", last["mod_id"])
+            if last["mod_id"] != client.module_id:
+                bad["client.module_id"] = (last["mod_id"], client.module_id)
+            if last["is_logger"] != int(flags2[0]):
+                bad["is_logger"] = (int(flags2[0]), last["is_logger"])
+            if last["is_unique"] != 1 - int(flags2[2]):
+                bad["is_unique"] = (1 - int(flags2[2]), last["is_unique"])
+            if last["name"] != want["name"]:
+                bad["name"] = (want["name"], last["name"])
+            if bad:
+                raise Violation("entry/reconnect/effect-" + "+".join(sorted(bad)),
+                                f"{kw}: after the second connect() the manager registered the client differently from what was asked: {bad}", trace)
+            if res is not None:
+                res.count("entry-reconnect")
         if cm is not None:
             cm.__exit__(None, None, None)
         if res is not None:
@@ -287,7 +324,8 @@ def shard_entry(seed, n):
     strat = st.fixed_dictionaries(dict(entry=st.sampled_from(["connect", "client_context"]),
                                        module_id=st.sampled_from([0, 0, 10, 11, 50, 99, 1]),
                                        name=st.sampled_from(["", "alpha", "a_long_module_name_of_31_chars_"]),
-                                       logger=tri, daemon=tri, multi=tri, timecode=st.booleans()))
+                                       logger=tri, daemon=tri, multi=tri, timecode=st.booleans(),
+                                       reconnect=st.one_of(st.none(), st.tuples(st.booleans(), st.booleans(), st.booleans()))))
     hyp_run(lambda kw: entry_case(kw, res), strat, seed, n, res)
     return res
 
